@@ -123,6 +123,15 @@ pub fn run(args: &Args) -> i32 {
     report.assume("the log storage is MirrorStorage, written from cluster.rs/cluster_log.rs (see mirror.rs); it never fails and is never restarted");
     report.assume("visited sets hold 128-bit hashes of the canonical state encoding (collision probability negligible at these counts)");
     report.assume("client appends happen only at a node whose state is Leader");
+    if args.property == "C27" {
+        // other cluster sizes: election-only exploration (see nsize.rs)
+        let tn = std::time::Instant::now();
+        let ns = crate::nsize::explore(args, &report, args.tier == Tier::Thorough);
+        report.set("n45_states", json!(ns.states));
+        report.set("n45_transitions", json!(ns.transitions));
+        report.set("n45_states_at_depth_bound_not_expanded", json!(ns.last_level));
+        report.set("n45_election_only", json!({"what": "N = 4 and N = 5, no client appends, unordered network, breadth-first, exact deduplication; oracle: no two nodes ever Leader for one term", "per_base": ns.per_base, "wall_s": tn.elapsed().as_secs_f64()}));
+    }
     col.flush(&report);
     report.finish()
 }
